@@ -12,8 +12,9 @@ EXPLANATION = (
     "order, signedness) and every written ext code is read; recreate_classes descends into set/list/tuple/dict alike; server and "
     "client use one serializer object per exchange; the call envelope (object, method, vargs, kwargs) is written and read in matching "
     "positions/keys; the isinstance dispatch chains of the type mappers test subtypes before supertypes; no serializer dereferences the kwargs slot that the proxy leaves None for attribute and batch requests; compression flag/transform pairing (shared with C06-R7). "
-    "Not decided: that serpent/json/marshal/msgpack/zlib return what was put in over the unbounded value domain, the "
+    "Also decided (rounds 4/5, mutation map): no serializer dereferences the kwargs slot the proxy leaves None; marshal's pre-conversion recurses into containers with a per-path cycle guard; the byte normaliser returns the content of exactly the view it was given; the client refuses a reply encoded by another serializer before decoding it. "
     "documented type mapping, idempotence."
+    "Not decided: that serpent/json/marshal/msgpack/zlib return what was put in over the unbounded value domain, the "
 )
 
 DECODERS = {"serpent.loads", "marshal.loads", "json.loads", "msgpack.unpackb"}
@@ -400,6 +401,14 @@ def run(ctx, R, tier):
     R.check(not leaked, "C01-R10", "convert_obj_into_marshallable|containers-not-passed-through", "no container type is returned unconverted", conv.loc(),
             "values of type %s are handed to marshal as they are: an object nested in them (the exception wrapper in a batch reply, a class instance among batched arguments, "
             "a URI in a tuple) makes the whole message unmarshallable although the same value travels fine on its own" % ", ".join(leaked))
+    # the cycle guard must describe the current path only: a container reached twice along different branches (aliasing, no cycle) is legal data
+    guard_params = [a for a in conv.params[2:]]
+    mutated = [c for c in walk_no_nested(conv.node) if isinstance(c, ast.Call) and isinstance(c.func, ast.Attribute) and isinstance(c.func.value, ast.Name)
+               and c.func.value.id in guard_params and c.func.attr in ("add", "append", "update", "extend", "insert", "__setitem__")]
+    R.check(not mutated, "C01-R10", "convert_obj_into_marshallable|cycle-guard-is-per-path", "the record of containers being converted is never mutated in place (each level passes an extended copy down)",
+            conv.loc(mutated[0]) if mutated else conv.loc(),
+            "`%s` records visited containers in one object shared by the whole conversion: a value that merely contains the same list or tuple twice (no cycle) is refused as circular, "
+            "e.g. a batch whose calls share an argument" % (unparse(mutated[0]) if mutated else ""))
     rec = [c for c in walk_no_nested(conv.node) if isinstance(c, ast.Call) and isinstance(c.func, ast.Attribute) and c.func.attr == conv.name
            and isinstance(c.func.value, ast.Name) and c.func.value.id == conv.self_name]
     R.check(len(rec) >= 2, "C01-R10", "convert_obj_into_marshallable|recurses-into-members", "members of sequences/sets and values of dicts are converted recursively (%d recursive calls)" % len(rec),
